@@ -44,6 +44,11 @@ POOL = [
     "{ float r = 0.0 ; int k = 3 ; do { k -- ; r = r + h ( k , q ) ; } while ( k > 0 ) return r ; }\n",
     "export function f ( float a , int b ) -> float { float x = a * b + 2 ; int y = b / 2 ; return x - y ; }\n",
     "export function f ( int2 a , int2 b ) -> int2 { return a + b ; }\nexport function g ( float2 a ) -> float { return a . x ; }\n",
+    # a caller defined BEFORE the several functions it calls
+    "export function f ( int a ) -> int { return h1 ( a ) + h2 ( a ) * h3 ( a ) - h4 ( a ) ; }\nfunction h1 ( int x ) -> int { return x + 1 ; }\n"
+    "function h2 ( int x ) -> int { return h4 ( x ) + 2 ; }\nfunction h3 ( int x ) -> int { return x * 3 ; }\nfunction h4 ( int x ) -> int { return x - 4 ; }\n",
+    "export function f ( float a ) -> float { return zed ( a ) + alpha ( a ) + mid ( a ) ; }\nfunction mid ( float x ) -> float { return alpha ( x ) ; }\n"
+    "function alpha ( float x ) -> float { return x ; }\nfunction zed ( float x ) -> float { return mid ( x ) * 2.0 ; }\n",
     # parameters without a name
     "function h ( float v , int ) -> float { return v ; }\nexport function f ( float a , int ) -> float { return h ( a , 2 ) ; }\n",
     "export function f ( int , float , int c ) -> int { return c + 1 ; }\nfunction g ( float2 ) -> int { return 3 ; }\n",
@@ -109,8 +114,9 @@ def source(draw, allow_bad=True):
 def history_case(draw):
     target = draw(source(allow_bad=False))
     opts = (draw(st.booleans()), draw(st.booleans()))
-    hist = [(draw(source()), draw(st.booleans()), draw(st.booleans())) for _ in range(draw(st.integers(1, 6)))]
-    return (target, opts, tuple(hist))
+    style = st.sampled_from(["full", "minimal"])
+    hist = [(draw(source()), draw(st.booleans()), draw(st.booleans()), draw(style)) for _ in range(draw(st.integers(1, 6)))]
+    return (target, opts + (draw(style),), tuple(hist))
 
 
 _SERVER = None
@@ -132,13 +138,22 @@ def _diff(a, b):
     return "equal"
 
 
+def _opts(t):
+    """(optimize, wasm[, how the options are passed])"""
+    return t[0], t[1], (t[2] if len(t) > 2 else "full")
+
+
 def history_check(ctx, case):
-    target, (opt, wasm), hist = case
+    target, topts, hist = case
+    opt, wasm, tstyle = _opts(topts)
     ctx.count()
     ref = server().compile_one(target, opt, wasm)
     rejected = 0
-    for (src, o, w) in hist:
-        c = adapter.compile_src(src, optimize=o, wasm=w)
+    ctx.label("target-options-passed:" + tstyle)
+    for h in hist:
+        src = h[0]
+        o, w, hstyle = _opts(h[1:])
+        c = adapter.compile_src(src, optimize=o, wasm=w, options_style=hstyle)
         if not c.ok:
             rejected += 1
         elif w:
@@ -146,7 +161,7 @@ def history_check(ctx, case):
                 adapter.wasm_bytes(c.result)
             except Exception:
                 pass
-    c = adapter.compile_src(target, optimize=opt, wasm=wasm)
+    c = adapter.compile_src(target, optimize=opt, wasm=wasm, options_style=tstyle)
     got = pristine.describe_compiled(c, wasm)
     big = ref.get("ok") and (len(ref["functions"]) >= 2 or ref["listing"].count("bb_") >= 3 + ref["listing"].count("label bb_"))
     if len(hist) >= 2 and rejected >= 1 and big:
@@ -252,7 +267,31 @@ json.dump(out, sys.stdout)
 """
 
 
-def run_child(reqs, hashseed, repo=None):
+LIBS = {
+    "la": "function scale ( float v ) -> float { return v * 2.0 ; }\n",
+    "lb": "export function scale ( float v ) -> float { return v * 3.0 ; }\n",
+    "lc": "function scale ( float v ) -> int { return 1 ; }\nfunction offs ( int k ) -> int { return k + 7 ; }\n",
+    "ld": "function offs ( int k ) -> int { return k + 1 ; }\nfunction scale ( int k ) -> int { return k ; }\n",
+    "le": "struct P { float u ; int w ; }\nfunction scale ( float2 v ) -> float { return v . x ; }\n",
+}
+
+
+def importer_sources():
+    """programs importing two or three stored libraries whose functions partly clash (same name and parameter
+    types): accepted or rejected, the outcome may not depend on the hash seed"""
+    import itertools
+    out = []
+    for n in (2, 3):
+        for combo in itertools.permutations(sorted(LIBS), n):
+            if n == 3 and combo[0] > combo[1]:
+                continue
+            imports = "".join('import "%s" ;\n' % c for c in combo)
+            for body in ("return scale ( x ) ;", "return scale ( a ) + offs ( a ) ;", "return offs ( a ) ;"):
+                out.append(imports + "export function f ( float x , int a ) -> float { %s }\n" % body)
+    return out
+
+
+def run_child(reqs, hashseed, repo=None, cwd=None):
     here = os.path.dirname(os.path.dirname(os.path.dirname(os.path.abspath(__file__))))
     env = dict(os.environ)
     if hashseed is None:
@@ -263,7 +302,7 @@ def run_child(reqs, hashseed, repo=None):
     if repo:
         env["NSL_REPO"] = repo
     p = subprocess.run([sys.executable, "-c", CHILD % {"verif": here}], input=json.dumps(reqs), capture_output=True,
-                       text=True, env=env, cwd=here, timeout=1200)
+                       text=True, env=env, cwd=cwd or here, timeout=1200)
     if p.returncode != 0:
         raise RuntimeError("child failed: " + p.stderr[-2000:])
     return json.loads(p.stdout)
@@ -283,23 +322,37 @@ def seeds_worker_factory(R, n_sources):
             srcs.append((s, o, w))
 
         collect()
-        srcs.extend((s, o, True) for s in POOL for o in (False, True))
+        srcs.extend((s, o, w) for s in POOL for o in (False, True) for w in (True, False))
+        # importers of stored libraries, compiled in a directory that holds the library files
+        import pickle
+        import shutil
+        import tempfile
+        libdir = tempfile.mkdtemp(prefix="c18_libs_")
+        for nm, lsrc in LIBS.items():
+            lc = adapter.compile_src(lsrc)
+            if lc.ok:
+                with open(os.path.join(libdir, nm + ".nslir"), "wb") as fh:
+                    pickle.dump(lc.ir, fh)
+        imps = importer_sources()
+        srcs.extend((s, False, False) for s in imps[k % 4::4])
+        ctx.label("seeds:importers-of-clashing-libraries")
         results = {}
         variants = [0, 1, 4242, None]
-        for hs in variants:
-            results[hs] = run_child(srcs, hs)
-        if not R.quick and k == 0:
-            import shutil
-            import tempfile
-            tmp = tempfile.mkdtemp(prefix="c18_notab_")
-            try:
-                shutil.copytree(os.path.join(adapter.REPO, "nsl"), os.path.join(tmp, "nsl"),
-                                ignore=shutil.ignore_patterns("parsetab.py", "parser.out", "__pycache__"))
-                results["no-parsetab"] = run_child(srcs, 0, repo=tmp)
-                variants = variants + ["no-parsetab"]
-                ctx.label("no-cached-parser-tables")
-            finally:
-                shutil.rmtree(tmp, ignore_errors=True)
+        try:
+            for hs in variants:
+                results[hs] = run_child(srcs, hs, cwd=libdir)
+            if not R.quick and k == 0:
+                tmp = tempfile.mkdtemp(prefix="c18_notab_")
+                try:
+                    shutil.copytree(os.path.join(adapter.REPO, "nsl"), os.path.join(tmp, "nsl"),
+                                    ignore=shutil.ignore_patterns("parsetab.py", "parser.out", "__pycache__"))
+                    results["no-parsetab"] = run_child(srcs, 0, repo=tmp, cwd=libdir)
+                    variants = variants + ["no-parsetab"]
+                    ctx.label("no-cached-parser-tables")
+                finally:
+                    shutil.rmtree(tmp, ignore_errors=True)
+        finally:
+            shutil.rmtree(libdir, ignore_errors=True)
         base = results[0]
         for i, req in enumerate(srcs):
             ctx.count()
@@ -337,11 +390,13 @@ def batch_worker_factory(R, n_cases):
 
         collect()
         mine = []
-        for target, (opt, wasm), hist in cases:
-            for (src, o, w) in hist:
-                adapter.compile_src(src, optimize=o, wasm=w)
-            mine.append(pristine.describe_compiled(adapter.compile_src(target, optimize=opt, wasm=wasm), wasm))
-        reqs = [(t, o, w) for t, (o, w), _ in cases]
+        for target, topts, hist in cases:
+            opt, wasm, tstyle = _opts(topts)
+            for h in hist:
+                o, w, hstyle = _opts(h[1:])
+                adapter.compile_src(h[0], optimize=o, wasm=w, options_style=hstyle)
+            mine.append(pristine.describe_compiled(adapter.compile_src(target, optimize=opt, wasm=wasm, options_style=tstyle), wasm))
+        reqs = [(t, topts[0], topts[1]) for t, topts, _ in cases]
         other = run_child(list(reversed(reqs)), 0)
         other.reverse()
         for case, a, b in zip(cases, mine, other):
@@ -371,3 +426,5 @@ def run(R):
     R.require("target-accepted")
     R.require("seeds:wasm-requested")
     R.require("seeds:wasm-bytes-compared")
+    R.require("seeds:importers-of-clashing-libraries")
+    R.require("target-options-passed:minimal")
